@@ -146,22 +146,29 @@ class StdioClient:
         try:
             assert self.process and self.process.stdout
 
-            buffer = ""
+            # Buffer raw bytes: the OS may split the stream anywhere, including inside a
+            # multi-byte UTF-8 character, so a line is only decoded once it is complete
+            buffer = b""
             logger.debug("stdout_reader started")
 
             async for chunk in self.process.stdout:
                 # Handle both bytes and string chunks
                 if isinstance(chunk, bytes):
-                    buffer += chunk.decode("utf-8")
-                else:
                     buffer += chunk
+                else:
+                    buffer += chunk.encode("utf-8")
 
-                # Split on newlines
-                lines = buffer.split("\n")
-                buffer = lines[-1]
+                # Split on newlines (0x0A never occurs inside a multi-byte character)
+                raw_lines = buffer.split(b"\n")
+                buffer = raw_lines[-1]
 
-                for line in lines[:-1]:
-                    line = line.strip()
+                for raw_line in raw_lines[:-1]:
+                    try:
+                        line = raw_line.decode("utf-8").strip()
+                    except UnicodeDecodeError as exc:
+                        # An undecodable line is dropped alone, like any other bad line
+                        logger.error("Undecodable line from server: %s", exc)
+                        continue
                     if not line:
                         continue
                     try:
